@@ -1065,6 +1065,20 @@ def record_probes(ctx, memo, rnd, quick, ncount, cold, decisive):
         if len(B) > 1:
             ask(tail, B[:1], f0, lambda: REAL[f0](list(perms[:1])), "after an abandoned %s on a superset" % NAME[f0])
     ctx.note("questions_abandoned_half_way", nint)
+    # -- permutations of length 11-12 that differ although their entries, written one after the other, read the same
+    #    (10 | 1 0): one of the pair is asked about first, then the other, alone and next to fillers that leave it decisive
+    for i in range(8 * scale):
+        a, b = util.digit_twins(rnd, rnd.choice([11, 11, 12]), structured=i % 4 != 3)
+        if i % 2:
+            a, b = b, a
+        todo = [[a], [b], [b, a]]
+        # next to every filler basis (each lacks one type / one property, which the long element may supply)
+        for t, fdec, F in decisive:
+            todo += [list(F) + [a], list(F) + [b]]
+        for B in todo:
+            perms = [Perm(p) for p in B]
+            for f in ("poly", rnd.choice(FUNS[2:])) if len(B) > 2 else FUNS[1:]:
+                ask(tail, B, f, lambda: REAL[f](list(perms)), "digit twins %d" % i)
     # -- the cold processes and the command lines started earlier
     for B, via, proc in cold:
         try:
